@@ -124,7 +124,10 @@ def c14 (args res : List String) : Verdict :=
                   else go rest s nrot maxPeers
                 else
                   match implMap with
-                  | none => fail (vDiff "tick-carried-out" "a broadcast" "tick")
+                  | none =>
+                    -- no broadcast at all: right only if no choke flag changed (T3 with the empty map)
+                    if !t3Holds s implSnap [] then fail (vProp "T3-map-is-not-the-set-of-changes" "tick")
+                    else fail (vDiff "tick-carried-out" "a broadcast" "tick")
                   | some im =>
                     let implNewOpt := if round' = 0 then (implSnap.filter (fun p => p.optimistic && !p.amChoked)).map (·.addr) else []
                     if !t2Holds rate implNewOpt implSnap then fail (vProp "T2-rotation-postcondition" "tick")
